@@ -370,6 +370,8 @@ def delegations(P, R):
             R._add('C13.d', (o.path, o.site.split('::')[-1]), None, o.status, 'Dask total_bounds: ' + o.detail, construct=o.construct)
         elif o.rule == 'C06.d':
             R._add('C13.d', (o.path, o.site.split('::')[-1]), None, o.status, 'Dask total_bounds is reduced from cached partition bounds: ' + o.detail, construct=o.construct)
+        elif o.rule == 'C06.f':
+            R._add('C13.d', (o.path, o.site.split('::')[-1]), None, o.status, 'the Dask series whose bounds are asked for is the series that was given (identified by token): ' + o.detail, construct=o.construct)
     R.floor('C13.d', 'Dask total_bounds obligations', k, 4)
     # the bounds of fixed-width (point) arrays are masked by isna(): the validity bitmap must be read for exactly the window of the array (the C16.a small-scope
     # check, called as a function: C16 itself forwards C13, a forward here would be a cycle)
@@ -378,4 +380,9 @@ def delegations(P, R):
     _C16.bitmap_small_scope(P, sub16, P.func('spatialpandas.geometry.base', '_extract_isnull_bytemap'))
     for o in sub16.obs:
         ob = R._add('C13.b', (o.path, o.site.split('::')[-1]), None, o.status, '[C16.a] point bounds are masked by isna(): ' + o.detail, construct=o.construct, nontrivial=o.nontrivial)
+    # bounds are computed from the rows of THIS array: a selection (take with fill markers, slice, copy) carries no cached rows of its source
+    sub16d = type(R)('C16', 'quick')
+    _C16.derived_state(P, sub16d, P.cls('spatialpandas.geometry.base.GeometryArray'), 'C16.d')
+    for o in sub16d.obs:
+        R._add('C13.d', (o.path, o.site.split('::')[-1]), None, o.status, '[C16.d] bounds of a derived array are computed from its own rows: ' + o.detail, construct=o.construct, nontrivial=o.nontrivial)
     common.forward(P, R, 'C03', ['C03.c', 'C03.d'], 'C13.d', 'the spatial index reports the same total_bounds: every tree node is the union of its valid children, NaN rows never poison it', floor=4)
